@@ -19,7 +19,7 @@ package pe
 // Every descriptor id is mapped at most once: a surplus entry for an id cannot be hidden behind a later one.
 //@ func (PresentationSubmission).Resolve
 //@   prop C12
-//@   assume-benign
+//@   modifies nothing
 //@   call mapupdate #1 requires [no-second-entry-for-a-descriptor] !(arg(1) in arg(0)) && arg(1) == inputDescriptor.Id
 // Nothing has to be presented only for a definition without input descriptors (a definition with
 // descriptors always demands a selection: an empty submission for it is incomplete), and an "all"
@@ -92,7 +92,7 @@ package pe
 
 //@ func matchProofType
 //@   prop C12
-//@   assume-benign
+//@   modifies nothing
 //@ func jws.ParseString
 //@   trusted
 //@   benign
@@ -149,7 +149,7 @@ package pe
 //@ func ParsePresentationDefinition
 //@   prop C19
 //@   safety
-//@   assume-benign
+//@   modifies nothing
 //@   ensures [a-definition-or-an-error] isNilIface(result.1) ==> result.0 != nil
 //@   ensures [only-what-the-schema-accepts] isNilIface(result.1) ==> isNilIface(ret(call v2.Validate #1)) && arg(call v2.Validate #1, 0) == raw && arg(call v2.Validate #1, 1) == v2.PresentationDefinition
 //@ func hasNilSubmissionRequirement
